@@ -315,6 +315,7 @@ htp_status_t htp_connp_REQ_CONNECT_CHECK(htp_connp_t *connp) {
  *         we need more data.
  */
 htp_status_t htp_connp_REQ_CONNECT_PROBE_DATA(htp_connp_t *connp) {
+probe_next_line:
     for (;;) {//;i < max_read; i++) {
         IN_PEEK_NEXT(connp);
         // Have we reached the end of the line? For some reason
@@ -340,6 +341,14 @@ htp_status_t htp_connp_REQ_CONNECT_PROBE_DATA(htp_connp_t *connp) {
     // skip past leading whitespace. IIS allows this
     while ((pos < len) && htp_is_space(data[pos]))
         pos++;
+    if ((pos == len) && (connp->in_next_byte == LF)) {
+        // An empty line says nothing about what is in the tunnel: plain HTTP
+        // may begin with one (it is ignored in front of any other request).
+        // Step over it and look at the next line.
+        IN_COPY_BYTE_OR_RETURN(connp);
+        htp_connp_req_clear_buffer(connp);
+        goto probe_next_line;
+    }
     if (pos)
         mstart = pos;
     // The request method starts at the beginning of the
